@@ -328,6 +328,41 @@ def snake(kind):
 # ---------------------------------------------------------------------------------------------------
 # Lean emission
 
+WITNESSES = [
+    ("witnessExec", "query Q($v: [Int!] = 1 @d) { ... on T { a } } fragment F($w: Int) on T { a }",
+     {"experimental_fragment_variables": True}),
+    ("witnessSdl", 'schema @d { query: Q }\n"sd" scalar S\n"td" type T { "fd" f("ad" x: Int = 1): Int }\n"id" interface I { f: Int }\n'
+                   '"ud" union U = T\n"ed" enum E { "vd" A }\n"nd" input N { "xd" x: Int }\n"dd" directive @d on FIELD',
+     {"allow_type_system": True}),
+    ("witnessSmall", "{ a(x: 1) @d b { c } }", {}),
+]
+
+
+def witness_term(text, kw):
+    import json
+    from py_gql.lang import parse
+    import py_gql.lang.ast as A
+    counter = [0]
+
+    def go(n):
+        i = counter[0]
+        counter[0] += 1
+        attrs = []
+        for a in type(n).__slots__:
+            if a in ("source", "loc"):
+                continue
+            v = getattr(n, a, None)
+            if isinstance(v, A.Node):
+                attrs.append('("%s", .one (some (%s)))' % (a, go(v)))
+            elif v is None:
+                attrs.append('("%s", .one none)' % a)
+            elif isinstance(v, list) and all(isinstance(x, A.Node) for x in v):
+                attrs.append('("%s", .many [%s])' % (a, ", ".join(go(x) for x in v)))
+            else:
+                attrs.append('("%s", .scalar %s)' % (a, json.dumps(json.dumps(v))))
+        return '.mk "%s" %d [%s]' % (type(n).__name__, i, ", ".join(attrs))
+    return go(parse(text, **kw))
+
 def _s(x):
     return '"%s"' % x
 
@@ -342,9 +377,10 @@ def to_lean(t):
     def target(x):
         return ("(.disp %s)" if x in disp_names else "(.method %s)") % _s(x)
 
-    L = ["/- GENERATED on every run by harness/corr/C18_table.py from src/py_gql/lang/visitor.py and src/py_gql/lang/ast.py.",
+    L = ["/- GENERATED on every run by harness/corr/C18_table.py from src/py_gql/lang/visitor.py and src/py_gql/lang/ast.py",
+         "   (+ witness documents parsed by src/py_gql/lang/parser.py).",
          "   Do not edit: the check rewrites this file from /repo's working tree. -/", "",
-         "import PyGqlModel.VisitTypes", "namespace PyGql.Generated.VisitTable", "open PyGql.Visit", ""]
+         "import PyGqlModel.Visit", "namespace PyGql.Generated.VisitTable", "open PyGql.Visit", ""]
     L.append("/-- `__slots__` (field order, `source` dropped) of every concrete node class of `lang/ast.py` -/")
     L.append("def slots : List (String × List String) := [")
     L.append(",\n".join("  (%s, %s)" % (_s(k), _lst(_s(a) for a in attrs)) for k, attrs in t["slots"]))
@@ -377,6 +413,12 @@ def to_lean(t):
         L.append(",\n".join("  (%s, %s)" % (_s(k), _s(m)) for k, m in t[key]))
         L.append("]\n")
     L.append("def table : Table := { methods := methods, visit := visitDispatch, dispatchers := dispatchers, slots := slots }")
+    L.append("")
+    L.append("/-! witness documents, parsed by the real parser on this run (attribute `loc` dropped, ids = pre-order numbers) -/")
+    for name, text, kw in WITNESSES:
+        L.append("/-- `%s` -/" % text.replace("\n", " "))
+        L.append("def %s : Node :=\n  %s" % (name, witness_term(text, kw)))
+        L.append("")
     L.append("")
     L.append("end PyGql.Generated.VisitTable")
     return "\n".join(L) + "\n"
